@@ -511,6 +511,17 @@ def run_history(H, vars_, tid, cfg, step_hook=None):
                     kidsd.setdefault(id(ch), [ch, []])[1].append(nm)
                 e["parts"] = sorted([sorted(nms), sorted(ch.variables)] for ch, nms in kidsd.values())
                 e["flag"] = bool(getattr(sol, "_unsat", False))
+            elif call == "replstate":
+                # projection of a ReplacementFrontend's refined state (spec/SolverReplacement.tla: repl): which of the
+                # candidate key terms has a replacement, and which one; observation only
+                rp = getattr(sol, "_replacements", {})
+                obs = []
+                for kt in cfg.get("repl_keys", []):
+                    ka = B(kt)
+                    if ka.hash() in rp:
+                        obs.append([kt, TM.ser(rp[ka.hash()])])
+                e["repl"] = sorted(obs, key=json.dumps)
+                e["nrepl"] = len(rp)
             elif call == "downsize":
                 sol.downsize()
             elif call == "branch":
@@ -641,6 +652,15 @@ def main():
                         drift["finer" if finer else "drift"] += 1
                         if not finer and len(drift["samples"]) < 3:
                             drift["samples"].append({"history": H, "model": want, "code": {"parts": got["parts"], "flag": got["flag"]}})
+            if job.get("expect_repl"):
+                want = job["expect_repl"][i]
+                got = next((e for e in tr["ev"] if e["call"] == "replstate"), None)
+                if got is not None and got["exc"] == "":
+                    drift["checked"] += 1
+                    if json.dumps(got["repl"]) != json.dumps(want["repl"]) or got["nrepl"] != len(want["repl"]):
+                        drift["drift"] += 1
+                        if len(drift["samples"]) < 3:
+                            drift["samples"].append({"history": H, "model": want, "code": {"repl": got["repl"], "n": got["nrepl"]}})
             out.write(tr, nontrivial_key=[H], outcome="trace", sample={"history": H[:8]})
     extra = {"calls": n_calls}
     if drift["checked"]:
